@@ -336,7 +336,7 @@ func scanOutRead(c *core.Ctx) []ob {
 			for _, nd := range b.Nodes {
 				for _, e := range events(nd) {
 					for _, r := range e.reads {
-						if s[r] || s["*"] || seen[r] {
+						if s[r] || s["*"] || seen[r] || indexCovered(s, r) {
 							continue
 						}
 						// a cell indexed by a loop variable (opOut.Value[i]) is covered by a write of the same indexed cell
@@ -388,3 +388,35 @@ func init() {
 }
 
 var _ = packages.NeedName
+
+// indexCovered: a cell addressed with a variable index (opOut.Value[i]) is covered by an initialising write of any
+// cell of the same vector, and a constant-index cell by a write addressed with a variable index (the loop that
+// writes opOut.Value[i] for every i): the index values are not interpreted.
+func indexCovered(s map[string]bool, r string) bool {
+	i := strings.LastIndex(r, "[")
+	if i < 0 || !strings.HasSuffix(r, "]") {
+		return false
+	}
+	isConst := func(c string) bool {
+		idx := c[strings.LastIndex(c, "[")+1 : len(c)-1]
+		if idx == "" {
+			return false
+		}
+		for _, ch := range idx {
+			if ch < '0' || ch > '9' {
+				return false
+			}
+		}
+		return true
+	}
+	rc := isConst(r)
+	for w := range s {
+		if !s[w] || !strings.HasPrefix(w, r[:i+1]) || !strings.HasSuffix(w, "]") || strings.LastIndex(w, "[") != i {
+			continue
+		}
+		if !rc || !isConst(w) {
+			return true
+		}
+	}
+	return false
+}
